@@ -129,3 +129,572 @@ def validate_contracts(ctx, solver, A, rng):
     return bad
 
 
+# ----------------------------------------------------------------------------- storage containers
+SPARSE_FORMATS = ['csc', 'csr', 'coo', 'dia', 'bsr', 'lil', 'dok']
+# solve correspondence: three sparse containers per matrix, rotating with the occurrence of the class, so that every
+# (matrix class, container) pair is exercised on every run (quick: 3 matrices per class)
+SOLVE_SCHEDULE = [['csc', 'dia', 'lil'], ['csr', 'bsr', 'dia:rev'], ['coo', 'dok', 'array']]
+
+
+def dia_offsets_of(A):
+    """offsets of the diagonals of A that hold a non-zero entry (sorted)"""
+    ii, jj = np.nonzero(A)
+    return sorted({int(j - i) for i, j in zip(ii, jj)})
+
+
+def dia_with_offsets(A, offs):
+    """scipy.sparse.dia_matrix of A that stores exactly the diagonals `offs`, in this order"""
+    n, m = A.shape
+    data = np.zeros((len(offs), m), dtype=A.dtype)
+    for k, o in enumerate(offs):
+        for j in range(m):
+            if 0 <= j - o < n:
+                data[k, j] = A[j - o, j]
+    return sps.dia_matrix((data, np.array(offs, dtype=int)), shape=(n, m))
+
+
+def dia_orderings(offs0, n, rng):
+    """orders in which the offsets array may list the stored diagonals: all of them for <= 3 diagonals, else sorted,
+    reversed, main diagonal first / last, one shuffle; plus arrays that store an additional all-zero diagonal"""
+    offs0 = list(offs0)
+    if len(offs0) <= 3:
+        out = [list(p) for p in itertools.permutations(offs0)]
+    else:
+        out = [sorted(offs0), sorted(offs0, reverse=True)]
+        if 0 in offs0:
+            rest = [o for o in offs0 if o != 0]
+            out += [[0] + rest, rest + [0], [0] + rest[::-1]]
+        sh = list(offs0)
+        rng.shuffle(sh)
+        out.append(sh)
+    extra = next((o for o in (1, -1, 2, -2) if o not in offs0 and abs(o) < n), None)
+    if extra is not None:
+        base = ([0] + [o for o in offs0 if o != 0]) if 0 in offs0 else list(offs0)
+        out += [base + [extra], [extra] + base]          # explicit zero diagonal, main diagonal first / not first
+    seen, res = set(), []
+    for o in out:
+        if tuple(o) not in seen and o:
+            seen.add(tuple(o))
+            res.append(o)
+    return res
+
+
+def storage(A, spec):
+    """spec: 'dense' | one of SPARSE_FORMATS | 'bsr2' | '<fmt>_array' | ('dia', offsets)"""
+    if spec == 'dense':
+        return A
+    if isinstance(spec, tuple):
+        return dia_with_offsets(A, list(spec[1]))
+    if spec == 'bsr2':
+        return sps.bsr_matrix(A, blocksize=(2, 2))
+    if spec.endswith('_array'):
+        return getattr(sps, spec)(A)
+    return getattr(sps, spec + '_matrix')(A)
+
+
+def spec_label(spec):
+    return spec if isinstance(spec, str) else 'dia' + repr(list(spec[1])).replace(' ', '')
+
+
+def coq_storage(spec, As):
+    """Model/MatrixChecks.v : storage term for the container (the offsets array is read from the container)"""
+    if isinstance(spec, str) and spec == 'dense':
+        return 'SDense'
+    if isinstance(As, sps.dia_matrix):
+        return '(SDiaMatrix ' + vlib.zl([int(o) for o in As.offsets]) + '%Z)'
+    return 'SSparse'
+
+
+def all_specs(A, rng, full):
+    """every container the matrix checks / solvers accept, for one matrix"""
+    n = A.shape[0]
+    specs = ['dense'] + list(SPARSE_FORMATS)
+    if n % 2 == 0 and A.shape[0] == A.shape[1]:
+        specs.append('bsr2')
+    offs0 = dia_offsets_of(A)
+    if offs0 and A.shape[0] == A.shape[1]:
+        specs += [('dia', tuple(o)) for o in dia_orderings(offs0, n, rng)]
+    arrays = [f + '_array' for f in SPARSE_FORMATS]
+    specs += arrays if full else [arrays[rng.randrange(len(arrays))], 'dia_array']
+    return specs
+
+
+# ----------------------------------------------------------------------------- case generation
+def solver_menu(pym, cls, cplx, sparse):
+    """(label, constructor) list of solvers whose documented class contains the matrix class"""
+    S = pym.solvers
+    menu = []
+    herm = cls in lc.HERMITIAN
+    if sparse:
+        menu.append(('SolverSparseLU', lambda: S.SolverSparseLU()))
+        if cls == 'diag':
+            menu.append(('SolverDiagonal', lambda: S.SolverDiagonal()))
+    else:
+        menu.append(('SolverDenseQR', lambda: S.SolverDenseQR()))
+        menu.append(('SolverDenseLU', lambda: S.SolverDenseLU()))
+        if cls == 'diag':
+            menu.append(('SolverDiagonal', lambda: S.SolverDiagonal()))
+        if herm:
+            menu.append(('SolverDenseCholesky', lambda: S.SolverDenseCholesky()))
+            menu.append(('SolverDenseLDL(None)', lambda: S.SolverDenseLDL()))
+            menu.append(('SolverDenseLDL(True)', lambda: S.SolverDenseLDL(hermitian=True)))
+            if not cplx:
+                menu.append(('SolverDenseLDL(False)', lambda: S.SolverDenseLDL(hermitian=False)))
+        if cls == 'csym':
+            menu.append(('SolverDenseLDL(None)', lambda: S.SolverDenseLDL()))
+            menu.append(('SolverDenseLDL(False)', lambda: S.SolverDenseLDL(hermitian=False)))
+    menu.append(('auto_determine_solver', None))
+    return menu
+
+
+def kind_of(solver):
+    """observed result of auto_determine_solver as a Coq solver_kind term"""
+    n = type(solver).__name__
+
+    def ob(v):
+        return 'None' if v is None else '(Some true)' if v else '(Some false)'
+    if n == 'SolverDenseLDL':
+        return f'(KDenseLDL {ob(solver.hermitian)})'
+    if n == 'SolverSparsePardiso':
+        return f'(KPardiso {ob(solver.kw["symmetric"])} {ob(solver.kw["hermitian"])} {ob(solver.kw["positive_definite"])})'
+    return {'SolverDenseQR': 'KDenseQR', 'SolverDiagonal': 'KDiagonal', 'SolverSparseCholeskyScikit': 'KSparseCholScikit',
+            'SolverSparseCholeskyCVXOPT': 'KSparseCholCVXOPT', 'SolverSparseLU': 'KSparseLU',
+            'SolverDenseCholesky': 'KDenseCholesky', 'SolverDenseLU': 'KDenseLU'}[n]
+
+
+def coq_opt(v):
+    return 'None' if v is None else '(Some true)' if v else '(Some false)'
+
+
+def coq_auto_row(avail, ov, got):
+    return ('(' + ', '.join(vlib.blit(a) for a in avail) + ', (' +
+            ', '.join(coq_opt(ov.get(k)) for k in ('isdiagonal', 'ishermitian', 'issymmetric', 'ispositivedefinite')) + '), ' + got + ')')
+
+
+class _Stub:
+    """stands for an optional-package solver whose package is absent: records constructor arguments only"""
+    defined = True
+
+    def __init__(self, **kw):
+        self.kw = kw
+
+
+def auto_with_availability(pym, A, avail, ov):
+    """call the real auto_determine_solver with the availability flags of the optional packages patched from outside"""
+    import pymoto.solvers.auto_determine as ad
+    names = ['SolverSparsePardiso', 'SolverSparseCholeskyScikit', 'SolverSparseCholeskyCVXOPT']
+    saved = {k: getattr(ad, k) for k in names}
+    try:
+        for k, a in zip(names, avail):
+            if a:
+                setattr(ad, k, type(k, (_Stub,), {}))
+        return ad.auto_determine_solver(A, **ov)
+    finally:
+        for k in names:
+            setattr(ad, k, saved[k])
+
+
+def band_matrices(rng):
+    """deliberately chosen matrices whose natural container is DIA: (class, matrix, name).  All non-singular by strict
+    diagonal dominance except the last group (classification / decision table only)."""
+    def ri(lo, hi, nz=False):
+        v = rng.randint(lo, hi)
+        while nz and v == 0:
+            v = rng.randint(lo, hi)
+        return v
+    out = []
+    n = 5
+    up = np.diag([float(ri(4, 9)) for _ in range(n)]) + np.diag([float(ri(1, 3)) for _ in range(n - 1)], 1)
+    out.append(('upper', up, 'band_upper_bidiagonal'))
+    out.append(('lower', up.T.copy(), 'band_lower_bidiagonal'))
+    tri = np.diag([float(ri(7, 9)) for _ in range(n)]) + np.diag([float(ri(1, 3)) for _ in range(n - 1)], 1) \
+        + np.diag([float(-ri(1, 3)) for _ in range(n - 1)], -1)
+    out.append(('general', tri, 'band_tridiagonal_nonsymmetric'))
+    off = [float(ri(1, 3)) for _ in range(n - 1)]
+    out.append(('spd', np.diag([float(ri(7, 9)) for _ in range(n)]) + np.diag(off, 1) + np.diag(off, -1), 'band_tridiagonal_spd'))
+    out.append(('indef', np.diag([7., -8, 9, -7, 8]) + np.diag(off, 1) + np.diag(off, -1), 'band_tridiagonal_indefinite'))
+    offc = np.array([complex(ri(1, 2), ri(1, 2)) for _ in range(n - 1)])
+    out.append(('hpd', np.diag([complex(ri(7, 9)) for _ in range(n)]) + np.diag(offc, 1) + np.diag(offc.conj(), -1), 'band_tridiagonal_hpd'))
+    out.append(('csym', np.diag([complex(ri(7, 9), ri(1, 3)) for _ in range(n)]) + np.diag(offc, 1) + np.diag(offc, -1), 'band_tridiagonal_complex_symmetric'))
+    out.append(('general', np.diag([complex(ri(7, 9), ri(-3, 3)) for _ in range(n)]) + np.diag(offc, 1) + np.diag(2 * offc.conj(), -1),
+                'band_tridiagonal_complex_general'))
+    far = np.diag([float(ri(4, 9)) for _ in range(6)]) + np.diag([float(ri(1, 3)) for _ in range(3)], 3)
+    out.append(('upper', far, 'band_far_upper'))
+    far2 = np.diag([float(ri(7, 9)) for _ in range(6)]) + np.diag([float(ri(1, 3)) for _ in range(4)], 2) + np.diag([float(ri(1, 3)) for _ in range(4)], -2)
+    out.append(('general', far2, 'band_offsets_0_m2_p2'))
+    penta = np.diag([float(ri(12, 15)) for _ in range(6)])
+    for o in (-2, -1, 1, 2):
+        penta = penta + np.diag([float(ri(1, 3)) for _ in range(6 - abs(o))], o)
+    out.append(('general', penta, 'band_pentadiagonal'))
+    out.append(('diag', np.diag([float(ri(-9, 9, True)) for _ in range(4)]), 'band_diagonal_real'))
+    out.append(('diag', np.diag([complex(ri(-9, 9, True), ri(-3, 3)) for _ in range(3)]), 'band_diagonal_complex'))
+    # singular: classification and decision table only
+    out.append(('singular', np.diag([float(ri(1, 3)) for _ in range(3)], 1), 'band_single_superdiagonal'))
+    out.append(('singular', np.diag([float(ri(1, 3)) for _ in range(3)], -1), 'band_single_subdiagonal'))
+    return out
+
+
+def run(ctx):
+    warnings.simplefilter('ignore')
+    import pymoto as pym
+    ctx.rule = ('matrices of every class (diagonal, SPD/HPD, negative definite, symmetric/Hermitian indefinite, zero-diagonal '
+                '(2x2 pivots), complex symmetric, general, row-permuted, triangular; banded ones whose natural container is DIA) '
+                'with integer / Gaussian-integer entries, non-singular by (permuted) strict diagonal dominance, n = 1..8.  '
+                'Matrix predicates + decision table: every matrix in EVERY container (dense, csc, csr, coo, dia with every / '
+                'several orders of the offsets array incl. explicit zero diagonals, bsr with 1x1 and 2x2 blocks, lil, dok, '
+                'the *_array classes).  Solve: dense + three sparse containers per matrix rotating so that every class meets '
+                'every container on every run; every solver whose documented class contains the matrix x trans N/T/H x '
+                'right-hand sides (n), (n,1), (n,k) incl. dependent (real and non-real coefficients), duplicate, zero and n+1 '
+                'columns, real and complex.  A case is non-trivial when n >= 2; distinct by (solver, class, n, container, '
+                'trans, rhs kind, values).  auto_determine_solver: overrides x availability patterns per stored matrix.')
+    ctx.assumptions += ['theorems are over exact arithmetic in an arbitrary star ring; floating-point accuracy of LAPACK/SuperLU is '
+                        'validated (1e-9 relative, in exact Q inside Coq against the exact rational solution), not proved',
+                        'convergence of CG / multigrid is run-time behaviour (post-condition checked), not proved',
+                        'pypardiso / scikit-sparse / cvxopt are absent: only their decision-table rows are covered',
+                        'matrix predicates: np.allclose(x, 0) is read as x = 0 (exact on the integer-valued matrices generated here); '
+                        'near-zero floating-point entries are outside the model']
+    ctx.trusted += ['Print Assumptions: all C05 theorems are closed under the global context (mathcomp ssreflect/algebra, no axioms)',
+                    'tools/gen_C05.py (T-alg / T-dec translators, fail-closed) and the reading of numpy/scipy expressions it embodies '
+                    '(@ = product, .T/.conj(), x[p] = P x, u[p] = x as P^T x for a permutation p, solve_triangular flags; the '
+                    'atoms of matrix_checks.py)',
+                    'library contracts (scipy.linalg.qr/lu/cholesky/ldl/solve_triangular, numpy division, SuperLU solve, np.linalg.inv): '
+                    'premises of the theorems, validated on every factorisation the harness creates (oracle_validation)',
+                    'exact rational reference solutions are computed in Python (fractions) and CHECKED inside Coq (op_t(A) X = B exactly)',
+                    'scipy DIA semantics (Model/MatrixChecks.v dia_dense) is checked inside Coq for every DIA container created']
+    vlib.audit(ctx)
+    if not vlib.ensure_static(ctx, ['theories/Props/C05.vo', 'theories/Props/C05b.vo']):
+        return
+    translate(ctx)
+    vlib.check_props(ctx)
+    vlib.check_props(ctx, 'theories/Props/C05b.v')
+
+    rng = ctx.rng
+    from pymoto.solvers import auto_determine_solver
+    from pymoto.solvers import matrix_is_sparse, matrix_is_diagonal, matrix_is_symmetric, matrix_is_hermitian, matrix_is_complex
+    checks, labels, meta = [], [], []
+    cls_checks, cls_labels = [], []
+    auto_checks, auto_labels, auto_rows = [], [], []
+    err_checks, err_labels = [], []
+    oracle_fail = []
+    nauto = 0
+
+    def add_solve_case(label, A_exact, t, b, x, Ad, solver_label, cls, replay):
+        """x: implementation's answer (numpy).  Adds the in-Coq check and runs the implementation-side oracle."""
+        B = cq_matrix(b)
+        X = cq_solve(cq_op(A_exact, t), B)
+        assert X is not None
+        xs = np.asarray(x)
+        shape_ok = xs.shape == np.asarray(b).shape
+        want_c = np.iscomplexobj(Ad) or np.iscomplexobj(b)
+        dtype_ok = (xs.dtype.kind == 'c') == want_c and xs.dtype.itemsize == (16 if want_c else 8)
+        if shape_ok:
+            chk = coq_check_solve(A_exact, t, X, B, xs)
+        else:
+            chk = 'false'
+        checks.append(f'({chk}) && {vlib.blit(shape_ok)} && {vlib.blit(dtype_ok)}')
+        labels.append(label)
+        meta.append(replay)
+        ctx.case(label, len(A_exact) >= 2, sample=dict(case=str(label), coq=checks[-1][:300]))
+        # implementation-side oracle: residual of the requested system, shape, dtype class
+        ctx.search_evaluations += 1
+        res_ok = shape_ok and close(opmat(Ad, t) @ xs, np.asarray(b, dtype=complex if want_c else float))
+        if not (res_ok and shape_ok and dtype_ok):
+            pred = 'op_trans(A) x = b' if not res_ok else 'x has the shape and dtype class of b'
+            oracle_fail.append(len(checks) - 1)
+            ctx.violation('impl-violates', solver_label.split('(')[0] + '.solve', pred, f'{cls} matrix', replay,
+                          expected=[[str(v) for v in r] for r in X], got=np.asarray(x).tolist().__repr__()[:2000])
+
+    def solve_block(cls, A, A_exact, name, spec, As, menu, kinds):
+        """every solver of the menu on the stored matrix As x right-hand-side kinds x N/T/H"""
+        cplx = np.iscomplexobj(A)
+        sparse = spec != 'dense'
+        stor = spec_label(spec)
+        n = A.shape[0]
+        for slabel, ctor in menu:
+            try:
+                solver = auto_determine_solver(As) if ctor is None else ctor()
+                solver.update(As)
+            except Exception as e:  # a solver that cannot factorise a matrix of its own class
+                ctx.violation('impl-violates', slabel.split('(')[0] + '.update', 'factorisation of a matrix of the documented class',
+                              f'{cls} matrix', dict(solver=slabel, A=A.tolist().__repr__(), storage=stor, error=repr(e)))
+                continue
+            ctx.count(f'solver:{slabel}')
+            ctx.count(f'solve-storage:{stor.split("[")[0]}')
+            if type(solver).__name__ == 'SolverDenseCholesky':
+                ctx.count('cholesky:success' if solver.success else 'cholesky:fallback')
+            if type(solver).__name__ == 'SolverDenseLDL' or (type(solver).__name__ == 'SolverDenseCholesky' and not solver.success):
+                s_ = solver if type(solver).__name__ == 'SolverDenseLDL' else solver.backup_solver
+                ctx.count('ldl:D diagonal' if np.array_equal(s_.d, np.diag(np.diag(s_.d))) else 'ldl:D with 2x2 blocks')
+            badc = validate_contracts(ctx, solver, As, rng)
+            for bc in badc:
+                ctx.violation('correspondence', type(solver).__name__ + '.update', 'library contract: ' + bc, f'{cls} matrix',
+                              dict(solver=slabel, A=A.tolist().__repr__(), storage=stor),
+                              note='a premise of the C05 theorem does not hold for the factors the solver stored')
+            for bk in kinds(sparse, cplx):
+                # complex rhs for a real sparse matrix: malformed stream (SuperLU refuses it)
+                bc_ = cplx or bk in ('cdep', 'idup') or (rng.random() < 0.3 and not sparse)
+                b = lc.gen_rhs(rng, n, bk, bc_)
+                for t in 'NTH':
+                    replay = dict(solver=slabel, storage=stor, cls=cls, A=A.tolist().__repr__(), b=b.tolist().__repr__(), trans=t)
+                    ctx.count(f'trans:{t}')
+                    ctx.count(f'rhs:{bk}:{"complex" if bc_ else "real"}')
+                    try:
+                        if rng.random() < 0.3:   # direct solvers accept (and ignore) an initial guess
+                            ctx.count('direct solver with x0')
+                            x = solver.solve(b.copy(), x0=np.ones_like(b), trans=t)
+                        else:
+                            x = solver.solve(b.copy(), trans=t)
+                    except Exception as e:
+                        ctx.evaluations += 1
+                        ctx.violation('impl-violates', slabel.split('(')[0] + '.solve', 'solve raises for a matrix of the documented class',
+                                      f'{cls} matrix', dict(replay, error=repr(e)))
+                        continue
+                    add_solve_case((slabel, cls, n, stor, t, bk, name), A_exact, t, b, x, A, slabel, cls, replay)
+
+    def std_kinds(sparse, cplx):
+        second = ['col', 'blk', 'dup', 'wide', 'zero']
+        if cplx or not sparse:
+            second += ['cdep', 'idup']
+        return ['vec', rng.choice(second)]
+
+    def classify_and_decide(cls, A, A_exact, name, spec, As, full_rows):
+        """(a) the five predicates + the two sign tests of the diagonal vs Model/MatrixChecks.v on the stored matrix;
+        (b) auto_determine_solver vs Model/MatrixChecks.v auto_on for overrides x availability patterns"""
+        nonlocal nauto
+        cplx = bool(np.iscomplexobj(A))
+        stor = spec_label(spec)
+        sparse = spec != 'dense'
+        square = A.shape[0] == A.shape[1]
+        S = coq_storage(spec, As)
+        Alit = lc.coq_cmat(A_exact)
+        fl = lc.classify(A) if square else None
+        ctx.count(f'container:{stor.split("[")[0]}')
+        lab = dict(A=A.tolist().__repr__(), storage=stor, cls=cls, offsets=[int(o) for o in As.offsets] if hasattr(As, 'offsets') else None)
+        try:
+            obs = [bool(matrix_is_sparse(As)), bool(matrix_is_diagonal(As)), bool(matrix_is_symmetric(As)) if square else None,
+                   bool(matrix_is_hermitian(As)) if square else None, bool(matrix_is_complex(As)),
+                   bool(np.all(As.diagonal() > 0)), bool(np.all(As.diagonal() < 0))]
+        except Exception as e:
+            ctx.evaluations += 1
+            ctx.violation('impl-violates', 'matrix_checks', 'the predicates evaluate on every container', f'{cls} matrix', dict(lab, error=repr(e)))
+            return
+        if square:
+            chk = f'list_all2 Bool.eqb (mc_flags {S} {vlib.blit(cplx)} {Alit}) [' + '; '.join(vlib.blit(v) for v in obs) + ']'
+            if isinstance(As, sps.dia_matrix):
+                # the container denotes A (scipy DIA semantics, checked inside Coq) and stores the offsets in the order given
+                Dlit = lc.coq_cmat(cq_matrix(np.asarray(As.data))) if As.data.size else '[]'
+                chk += f' && meqb (dia_dense {A.shape[0]} {A.shape[1]} {vlib.zl([int(o) for o in As.offsets])}%Z {Dlit}) {Alit}'
+                ctx.oracle_validation['scipy DIA container denotes the matrix (toarray)'] = \
+                    ctx.oracle_validation.get('scipy DIA container denotes the matrix (toarray)', 0) + 1
+                if not np.array_equal(As.toarray(), A) or (isinstance(spec, tuple) and [int(o) for o in As.offsets] != list(spec[1])):
+                    ctx.violation('correspondence', 'scipy.sparse.dia_matrix', 'library contract: container denotes the matrix, offsets kept in order',
+                                  'harness', lab)
+            cls_checks.append(chk)
+            cls_labels.append(dict(lab, observed=dict(zip(('sparse', 'diagonal', 'symmetric', 'hermitian', 'complex', 'dpos', 'dneg'), obs))))
+            ctx.case(('classify', name, stor), A.shape[0] >= 2, sample=dict(case=f'classify {name} {stor}', coq=chk[:300]))
+            # implementation-side oracle (testing): a predicate never reports a property the matrix does not have;
+            # symmetric / Hermitian / complex are exact in every container
+            ctx.search_evaluations += 1
+            wrong = []
+            if obs[1] and not fl['diag']:
+                wrong.append(('matrix_is_diagonal', 'reports diagonal only if every off-diagonal entry is zero'))
+            if obs[2] != fl['sym']:
+                wrong.append(('matrix_is_symmetric', 'reports A == A^T'))
+            if obs[3] != (fl['herm'] if cplx else fl['sym']):
+                wrong.append(('matrix_is_hermitian', 'reports A == A^H'))
+            if obs[4] != cplx or obs[0] != sparse:
+                wrong.append(('matrix_is_complex', 'reports the dtype class / container kind'))
+            for cs, pred in wrong:
+                ctx.violation('impl-violates', cs, pred, f'{cls} matrix', lab, got=repr(obs))
+        # decision table
+        if square:
+            ovs = [dict(), dict(ishermitian=fl['herm']), dict(issymmetric=fl['sym']), dict(isdiagonal=fl['diag']),
+                   dict(ishermitian=fl['herm'], issymmetric=fl['sym']), dict(ispositivedefinite=cls in lc.DEFINITE),
+                   dict(ishermitian=not fl['herm']), dict(issymmetric=not fl['sym'], ishermitian=fl['herm']),
+                   dict(isdiagonal=not fl['diag']), dict(ispositivedefinite=True), dict(ispositivedefinite=False, ishermitian=True)]
+            avails = list(itertools.product((False, True), repeat=3)) if sparse else [(False, False, False), (True, True, True)]
+            if not full_rows:
+                ovs = ovs[:3] + [ovs[5]]
+                avails = [(False, False, False), (True, True, True)] if not sparse else [(False, False, False), (False, True, True), (True, True, True)]
+        else:
+            ovs, avails = [dict()], [(False, False, False)]
+        rows, rlabels = [], []
+        for ov in ovs:
+            for avail in avails:
+                try:
+                    got = kind_of(auto_with_availability(pym, As, avail, ov))
+                except AssertionError:
+                    got = 'KAssertionError'
+                except Exception as e:
+                    ctx.evaluations += 1
+                    ctx.violation('impl-violates', 'auto_determine_solver', 'returns a solver for every non-singular square matrix',
+                                  f'{cls} matrix', dict(lab, overrides=ov, avail=avail, error=repr(e)))
+                    continue
+                rows.append(coq_auto_row(avail, ov, got))
+                rlabels.append(dict(lab, overrides=ov, avail=avail, got=got))
+                ctx.case(('auto', name, stor, tuple(sorted(ov.items())), avail), A.shape[0] >= 2)
+                ctx.count('auto:' + got.strip('()').split()[0])
+                nauto += 1
+        auto_checks.append(f'auto_group {S} {vlib.blit(cplx)} {Alit} [' + '; '.join(rows) + ']')
+        auto_labels.append(rlabels)
+        auto_rows.append((S, cplx, Alit, rows))
+
+    # ---- corpus first
+    corpus = load_corpus()
+    mats = []
+    for c in corpus:
+        A = np.array([[complex(*v) if isinstance(v, list) else v for v in row] for row in c['A']])
+        A = A.astype(complex) if np.iscomplexobj(A) and np.any(A.imag) or c.get('complex') else A.real.astype(float)
+        mats.append((c.get('class', 'corpus'), A, c.get('name', 'corpus'), len(mats)))
+    # ---- deliberately chosen banded matrices (natural container: DIA)
+    bands = band_matrices(rng)
+    # ---- generated matrices: `reps` of every class, real and complex
+    reps = 3 if ctx.quick() else 24
+    sizes = [1, 2, 3, 3, 4, 4, 5, 5, 6, 7, 8]
+    k = 0
+    for rep in range(reps):
+        for cplx in (False, True):
+            for cls in (lc.CLASSES_CPLX if cplx else lc.CLASSES_REAL):
+                n = sizes[rng.randrange(len(sizes))]
+                if cls in ('zerodiag', 'hzerodiag'):
+                    n = max(2, n + n % 2)
+                if cls in ('indef', 'hindef', 'general', 'permuted', 'csym', 'lower', 'upper') and n < 2:
+                    n = 2
+                k += 1
+                mats.append((cls, lc.gen_matrix(rng, cls, n, cplx), f'gen{k}', rep))
+
+    for (cls, A, name, occ) in mats:
+        n = A.shape[0]
+        cplx = np.iscomplexobj(A)
+        A_exact = cq_matrix(A)
+        fl = lc.classify(A)
+        if cls == 'corpus':
+            cls = 'diag' if fl['diag'] else ('spd' if fl['herm'] and fl['dpos'] and not cplx else 'general')
+        ctx.count(f'class:{cls}')
+        ctx.count(f'n:{n}')
+        ctx.count('complex' if cplx else 'real')
+        sched = ['dense'] + SOLVE_SCHEDULE[occ % 3]
+        sched = [{'dia:rev': ('dia', tuple(sorted(dia_offsets_of(A), reverse=True))),
+                  'array': SPARSE_FORMATS[(occ // 3 + k) % 7] + '_array'}.get(s, s) for s in sched]
+        if n % 2 == 0 and 'bsr' in sched and occ % 2:
+            sched[sched.index('bsr')] = 'bsr2'
+        for spec in sched:
+            As = storage(A, spec)
+            solve_block(cls, A, A_exact, name, spec, As, solver_menu(pym, cls, cplx, spec != 'dense'), std_kinds)
+        # every container: predicates and decision table
+        specs = all_specs(A, rng, full=not ctx.quick())
+        full_for = {spec_label(sched[0]), spec_label(sched[1])}
+        for spec in specs + [s for s in sched if s not in specs]:
+            As = storage(A, spec)
+            classify_and_decide(cls, A, A_exact, name, spec, As, spec_label(spec) in full_for)
+
+    # ---- banded matrices: every order of the offsets array; auto_determine_solver + SolverSparseLU solve in each
+    for (cls, A, name) in bands:
+        n = A.shape[0]
+        cplx = np.iscomplexobj(A)
+        A_exact = cq_matrix(A)
+        ctx.count(f'class:band/{cls}')
+        specs = all_specs(A, rng, full=True)
+        first_dia = True
+        for spec in specs:
+            As = storage(A, spec)
+            isdia = isinstance(spec, tuple) or spec == 'dia'
+            classify_and_decide(cls, A, A_exact, name, spec, As, isdia and first_dia)
+            if cls != 'singular' and (isdia or spec in ('dense', 'csr', 'dia_array')):
+                menu = [('auto_determine_solver', None)]
+                if isdia and first_dia:
+                    menu = solver_menu(pym, cls, cplx, True)
+                solve_block(cls, A, A_exact, name, spec, As, menu,
+                            lambda sparse, cplx_: [rng.choice(['vec', 'col', 'blk', 'dup'] + (['cdep', 'idup'] if cplx_ else []))])
+            if isdia:
+                first_dia = False
+                ctx.count('dia offsets order:' + ('main first' if len(As.offsets) and As.offsets[0] == 0 else 'main not first')
+                          + (', one diagonal' if len(As.offsets) == 1 else ', several'))
+
+    # ---- non-square matrices go to QR, in every container
+    for shp in ((2, 3), (3, 2)):
+        Ans = np.arange(6, dtype=float).reshape(shp)
+        for spec in ['dense'] + SPARSE_FORMATS + ['csr_array']:
+            classify_and_decide('nonsquare', Ans, cq_matrix(Ans), f'nonsquare{shp}', spec, storage(Ans, spec), False)
+
+    # ---- malformed stream: only the exception class is compared (invalid trans -> TypeError, complex rhs on real SuperLU -> TypeError)
+    S = pym.solvers
+    A3 = np.array([[4., 1, 0], [1, 5, 2], [0, 2, 6]])
+    for ctor, arg in ((S.SolverDenseQR, A3), (S.SolverDenseLU, A3), (S.SolverDenseCholesky, A3), (S.SolverDenseLDL, A3),
+                      (S.SolverSparseLU, sps.csc_matrix(A3)), (S.CG, sps.csc_matrix(A3))):
+        for tr_ in ('X', 'C', 'n', None):
+            try:
+                ctor(arg).solve(np.ones(3), trans=tr_)
+                got = 'none'
+            except Exception as e:
+                got = lc.exc_enum(e)
+            err_checks.append(f'{ERR_CODE[got]} =? {ERR_CODE["TypeError"]}')
+            err_labels.append(dict(solver=ctor.__name__, trans=tr_, got=got, expected='TypeError'))
+            ctx.case(('badtrans', ctor.__name__, tr_), True)
+            ctx.count('malformed:invalid trans')
+    for fmt in SPARSE_FORMATS:
+        try:
+            S.SolverSparseLU(storage(A3, fmt)).solve(np.array([1j, 2, 3]))
+            got = 'none'
+        except Exception as e:
+            got = lc.exc_enum(e)
+        err_checks.append(f'{ERR_CODE[got]} =? {ERR_CODE["TypeError"]}')
+        err_labels.append(dict(solver='SolverSparseLU', case='complex rhs for real matrix', storage=fmt, got=got, expected='TypeError'))
+        ctx.case(('complex-rhs-real-sparse', fmt), True)
+        ctx.count('malformed:complex rhs real sparse')
+
+    # ---- evaluate inside Coq
+    failing, err = vlib.run_cases(ctx, 'solve', lc.CQ_HEADER, checks, chunk=60)
+    failing1, err1 = vlib.run_cases(ctx, 'classify', CLS_HEADER, cls_checks, chunk=250)
+    failing2, err2 = vlib.run_cases(ctx, 'auto', CLS_HEADER, auto_checks, chunk=250)
+    failing3, err3 = vlib.run_cases(ctx, 'err', ERR_HEADER, err_checks, chunk=500)
+    allerr = '\n'.join(e for e in (err, err1, err2, err3) if e)
+    ctx.obligation('correspondence:case files evaluated', 'correspondence', not allerr, allerr)
+    if allerr:
+        ctx.violation('correspondence', 'solvers', 'case files compile', 'harness', dict(error=allerr[-3000:]), theorem='cases')
+    for idx in failing[:20]:
+        if idx in oracle_fail:
+            continue   # already reported with a concrete implementation-level violation
+        ctx.violation('correspondence', str(labels[idx][0]) + '.solve', 'x equals the exact solution of the requested system (1e-9), shape, dtype',
+                      f'{labels[idx][1]} matrix', dict(label=[str(v) for v in labels[idx]], replay=meta[idx]),
+                      note='exact rational solution (checked inside Coq) and implementation differ')
+    for idx in failing1[:20]:
+        ctx.violation('correspondence', 'matrix_checks', 'reported predicates == Model/MatrixChecks.v on the stored matrix', 'matrix predicates',
+                      cls_labels[idx], note='Coq model: ' + cls_checks[idx][:600])
+    if failing2:
+        # which rows of the failing groups differ
+        det, detl = [], []
+        for idx in failing2[:6]:
+            S_, c_, Alit, rows = auto_rows[idx]
+            for r, rl in zip(rows, auto_labels[idx]):
+                det.append(f'auto_group {S_} {vlib.blit(c_)} {Alit} [{r}]')
+                detl.append(rl)
+        failing2d, err2d = vlib.run_cases(ctx, 'autodetail', CLS_HEADER, det, chunk=250)
+        if err2d or not failing2d:
+            ctx.violation('correspondence', 'auto_determine_solver', 'returned solver class == Model/MatrixChecks.v auto_on', 'decision table',
+                          dict(groups=[auto_labels[i][:2] for i in failing2[:3]], error=err2d[-1000:]))
+        for j in failing2d[:20]:
+            ctx.violation('correspondence', 'auto_determine_solver', 'returned solver class == Model/MatrixChecks.v auto_on', 'decision table',
+                          detl[j], note='Coq model: ' + det[j][:600])
+    for idx in failing3[:20]:
+        ctx.violation('impl-violates', err_labels[idx]['solver'] + '.solve', 'invalid request raises TypeError', 'malformed request',
+                      err_labels[idx], expected='TypeError', got=err_labels[idx]['got'])
+    ctx.extra['solve_cases'] = len(checks)
+    ctx.extra['classify_cases'] = len(cls_checks)
+    ctx.extra['auto_cases'] = nauto
+    ctx.extra['auto_groups'] = len(auto_checks)
+
+    # ---- (iv) CG with every preconditioner: post-condition only
+    cg_sweep(ctx, pym)
+
+
+def load_corpus():
+    d = os.path.join(vlib.ROOT, 'corpus', 'C05')
+    out = []
+    if os.path.isdir(d):
+        for fn in sorted(os.listdir(d)):
+            if fn.endswith('.json'):
+                with open(os.path.join(d, fn)) as f:
+                    j = json.load(f)
+                out += j if isinstance(j, list) else [j]
+    return out
